@@ -417,7 +417,45 @@ def rule_views(run):
     views.run_rule(run, "F-VIEW")   # an actual that is a (nested) slice or element addresses the same bits every time it is formatted (port maps format each actual twice)
 
 
-RULES = [rule_interface, rule_port_map, rule_templates, rule_library_order, rule_defaults, rule_shared, rule_registration, rule_idset, rule_usage, rule_inherit_copy, rule_names, rule_views]
+def rule_port_widths(run):
+    run.begin(
+        "C12.h",
+        "the elements of a port map are not converted: an actual bound to a vector port has exactly the port's width - "
+        "the trial assignment `port <<= actual` of Entity.__init__ alone accepts narrower vectors (assignment extends "
+        "them), so the binding compares the widths itself, for inputs and outputs alike",
+        floor=1,
+    )
+    ctx = run.idx.mod("cohdl/_core/_context.py")
+    f = ctx.func("Entity.__init__")
+    # the loop that binds keyword arguments to ports
+    loops = [l for l in walk_local(f.node) if isinstance(l, ast.For) and "kwargs" in src(l.iter)]
+    if not loops:
+        raise AnalysisError("Entity.__init__: loop over the port bindings not found")
+    lp = loops[0]
+    br = [i for i in lp.body if isinstance(i, ast.If) and "ports" in src(i.test)]
+    if not br:
+        raise AnalysisError("Entity.__init__: branch `name in info.ports` not found")
+    found = None
+    for a in ast.walk(br[0]):
+        if isinstance(a, ast.Assert):
+            for c in ast.walk(a.test):
+                if isinstance(c, ast.Compare) and len(c.ops) == 1 and isinstance(c.ops[0], ast.Eq) and "width" in src(c.left) and "width" in src(c.comparators[0]) and src(c.left) != src(c.comparators[0]):
+                    found = a
+    ok = found is not None
+    guard_bad = []
+    if found is not None:
+        for g in ctx.parents.ancestors(found):
+            if g is br[0]:
+                break
+            if isinstance(g, ast.If) and ("is_output" in src(g.test) or "is_input" in src(g.test) or "direction" in src(g.test).lower()):
+                guard_bad.append(src(g.test)[:60])
+    run.ob(ok and not guard_bad, "Entity.__init__", file=ctx.rel, line=(found.lineno if found else br[0].lineno), detail="actual-width-equals-port-width",
+           expected="assert <actual>.width == <port type>.width for every vector port",
+           found="ok" if ok and not guard_bad else (f"only under {guard_bad}" if guard_bad else "widths are never compared: `Sub(x=u4)` for a port `x: Unsigned[8]` is emitted as `x => u4` (width mismatch in the port map)"))
+    run.end()
+
+
+RULES = [rule_interface, rule_port_map, rule_templates, rule_library_order, rule_defaults, rule_shared, rule_registration, rule_idset, rule_usage, rule_inherit_copy, rule_names, rule_views, rule_port_widths]
 LEVEL = "other"
 EXPLANATION = (
     "Structural half of 'instantiating equals inlining', for all hierarchies: the emitted interface (declared ports, "
